@@ -109,7 +109,11 @@ def macro_programs(draw):
             if to_declare and r < 35:
                 body.append(['stmt', ['label', to_declare.pop()]])
             if r < 50 or not callees:
-                if d.pct() < 80:
+                if d.pct() < 12:
+                    # pad to a multiple of N ops (N need not be a power of two): labels behind it depend on the padding
+                    body.append(['stmt', ['pad', ['n', d.choice([1, 2, 3, 4, 5, 6, 7, 8, 12]), 'dec']]])
+                    body.append(['stmt', ['op', None, None]])
+                elif d.pct() < 80:
                     body.append(['stmt', ['op', expr() if d.pct() < 70 else None, expr() if d.pct() < 70 else None]])
                 else:
                     body.append(['stmt', ['wflip', expr(), ['n', d.choice([0, 1, 3, 5, 0x81]), 'hex'], expr() if d.bool() else None]])
